@@ -697,7 +697,8 @@ fn build_default_for_struct(
         #[automatically_derived]
         impl #impl_g #trait_ for #this_ty #wheres {
             fn default() -> Self {
-                #value
+                // an argument position: a value such as `if c { a } else { b } + d` would be read as a statement
+                ::core::convert::identity::<Self>(#value)
             }
         }
     })
@@ -764,7 +765,8 @@ fn build_default_for_enum(
         #[automatically_derived]
         impl #impl_g #trait_ for #this_ty #wheres {
             fn default() -> Self {
-                #value
+                // an argument position: a value such as `if c { a } else { b } + d` would be read as a statement
+                ::core::convert::identity::<Self>(#value)
             }
         }
     })
